@@ -118,7 +118,7 @@ PROPS['C10'] = {
     'kani': [
         H(ROOT + 'c10::c10_k_ctap1_version', ['ctap1::Authenticator::call_ctap1', 'ctap1::Authenticator::version', 'Rpc::call (ctap1)']),
         H(ROOT + 'c10::c10_k_ctap2_large_blobs_not_implemented',
-          ['ctap2::Authenticator::call_ctap2', 'ctap2::Authenticator::large_blobs (default)', 'Rpc::call (ctap2)'], timeout=900),
+          ['ctap2::Authenticator::call_ctap2', 'ctap2::Authenticator::large_blobs (default)', 'Rpc::call (ctap2)'], timeout=1500),
     ],
     'assumptions': ['A10', 'AV', 'AK', 'AX'],
     'explanation': 'Unbounded proof: the real default methods call_ctap2 / call_ctap1 and both blanket Rpc::call impls '
@@ -298,7 +298,7 @@ K_C17 = [
 K_C13 = [
     H(WEB + 'c13_k_is_utf8_char_boundary', ['webauthn::is_utf8_char_boundary']),
     H(WEB + 'c13_k_floor_char_boundary_contract', ['webauthn::floor_char_boundary'], kind='bounded',
-      bound='exact UTF-8 precondition; strings <= 5 bytes; every index', timeout=900),
+      bound='exact UTF-8 precondition; strings <= 5 bytes; every index', timeout=1500),
     H(WEB + 'c13_k_floor_char_boundary_window', ['webauthn::floor_char_boundary'], kind='bounded',
       bound='window precondition (A12); strings <= 300 bytes; every index'),
     H(WEB + 'c13_k_truncate_uses_contract_l3', ['webauthn::truncate::<3> (against the contract of floor_char_boundary)'], kind='bounded',
@@ -307,7 +307,7 @@ K_C13 = [
     H(WEB + 'c13_k_truncate_64_window', ['webauthn::truncate::<64>', 'webauthn::floor_char_boundary'], kind='bounded',
       bound='texts <= 300 bytes, window precondition around the cut'),
     H(WEB + 'c13_k_user_icon_keep_or_drop', ['webauthn::deserialize_from_str_and_skip_if_too_long::<_, 128>'], kind='bounded',
-      bound='ASCII texts of 0..=300 bytes', timeout=900),
+      bound='ASCII texts of 0..=300 bytes', timeout=1500),
     H(WEB + 'c13_k_rp_icon_discarded', ['<webauthn::Icon as Deserialize>::deserialize'], kind='bounded', bound='ASCII texts of 0..=300 bytes'),
     H(WEB + 'c13_k_floor_char_boundary_contract_8', ['webauthn::floor_char_boundary'], kind='bounded',
       bound='exact UTF-8 precondition; strings <= 8 bytes', tier='thorough', timeout=2400),
@@ -383,7 +383,7 @@ PROPS['C19'] = {
 
 K_LOSSY = [
     H(WEB + 'c13_k_user_icon_keep_or_drop', ['webauthn::deserialize_from_str_and_skip_if_too_long::<_, 128>'], kind='bounded',
-      bound='ASCII texts of 0..=300 bytes', timeout=900),
+      bound='ASCII texts of 0..=300 bytes', timeout=1500),
     H(WEB + 'c13_k_truncate_64_window', ['webauthn::truncate::<64>', 'webauthn::floor_char_boundary'], kind='bounded',
       bound='texts <= 300 bytes, window precondition around the cut'),
     H(WEB + 'c13_k_rp_icon_discarded', ['<webauthn::Icon as Deserialize>::deserialize'], kind='bounded', bound='ASCII texts of 0..=300 bytes'),
